@@ -17,3 +17,18 @@ def run(ctx):
     stages.chan_family(ctx, ["C09."], lambda s: any(e["call"] == "cleanup" for e in s["env"]))
     stages.mgr_family(ctx, ["C09."], ["all"], lambda s: s["stim"]["kind"] in ("Close", "CloseErr") or any(t["call"] == "cleanup" for t in s["tr"]),
                       quick_n=3000, model=not ctx.quick(), sims=True, invariants=["M_C09_Close"])
+    # transport level: the REAL graphsync adapter's CloseChannel in every request state x gs.Cancel outcome, under virtual time
+    b = ctx.go_bin("gstx")
+    out = ctx.path("closeobs.ndjson")
+    ctx.must_run_go(b, "TestClose", env={"VERIF_OUT": out}, timeout=600)
+    n, verdicts = stages.judge(ctx, out, module="CloseJudge")
+    idx = stages.index_obs(out)
+    for v in verdicts:
+        c = idx[v["case"]]
+        ctx.violation({"rule": v["rule"], "reqState": v["status"]}, "%s violated: Transport.CloseChannel in request state %s (gs.Cancel outcome %s): returned=%s at %s ms" % (
+            v["rule"], v["status"], v["op"], c["returned"], c["at_ms"]), detail=c)
+    for c in idx.values():
+        ctx.traces += 1
+        ctx.evaluations += 1
+        ctx.distinct.add(("close", c["state"], c["cancel"], c["dir"], c["returned"]))
+    ctx.extra["transport_close_cases"] = n
